@@ -215,7 +215,9 @@ class HandleTypestate(Client):
                 return ((owner, POS),)
             if cursor != POS:
                 self._find("cursor", kind, node, ctx, chain)
-            return ((owner, cursor),)
+            # after a read the cursor stands at the next *physical* line, which is the next *indexed* line only for a
+            # complete in-order index: the next read needs its own seek
+            return ((owner, U),)
         if kind == "iter" and isinstance(node, ast.Attribute):
             d = dotted(node)
             if d and len(d) == 2 and d[1] in self.handles and ctx.scope.is_self(ast.Name(id=d[0], ctx=ast.Load())):
